@@ -1,9 +1,267 @@
 /-
   C13 — tagged fields: any order accepted, duplicates and missing fields reported.
-  (theorems are being added; see DESIGN.md §7 C13)
+
+  All four statements come from one loop invariant (Proofs/TagLoop.lean). They are stated for an
+  ARBITRARY struct definition and arbitrary arms (`arm` = the `match tag.0 { … }` of the generated code),
+  over sequences of *groups* = encoded tagged fields that decode exactly whatever follows them
+  (`GroupOK`; for the fields of well-formed structs this is the field-level round trip of C01 together
+  with the suffix law of C14).
 -/
-import ZvtVerif.Derive
+import ZvtVerif.Proofs.TagLoop
 namespace Zvt.C13
 open Zvt
+
+/-! ### what the loop does on groups ++ tail -/
+
+/-- all groups consumed, nothing left: the loop ends with every group recorded. -/
+theorem loop_all_groups (arm : Arm) (gs : List Group) (fuel currLen : Nat) (acc : List (Nat × Val)) (seen : List Nat)
+    (hok : ∀ g ∈ gs, GroupOK arm g) (hnd : (gs.map (·.t)).Nodup) (hns : ∀ g ∈ gs, g.t ∉ seen)
+    (hcl : gs ≠ [] → currLen ≠ (flat gs).length) :
+    tagLoop arm (gs.length + (fuel + 1)) currLen (flat gs) acc seen = .ok (results gs acc, tagsOf gs seen, []) := by
+  have := tagLoop_groups arm gs (fuel + 1) currLen [] acc seen hok hnd hns (by simpa using hcl)
+  simp only [List.append_nil] at this
+  rw [this]
+  simp [tagLoop]
+
+/-- **Foreign tag.** A tag the struct does not know, behind any sequence of groups, stops the loop: the
+fields decoded so far are exactly those of the groups before it, and everything from the unknown tag on
+is handed back untouched. -/
+theorem loop_foreign_tag (arm : Arm) (gs : List Group) (fuel currLen : Nat) (tail : Bytes) (u : Nat) (r : Bytes)
+    (acc : List (Nat × Val)) (seen : List Nat)
+    (hok : ∀ g ∈ gs, GroupOK arm g) (hnd : (gs.map (·.t)).Nodup) (hns : ∀ g ∈ gs, g.t ∉ seen)
+    (hcl : gs ≠ [] → currLen ≠ (flat gs ++ tail).length) (hcl0 : gs = [] → currLen ≠ tail.length)
+    (htag : tagDecDefault tail = .ok (u, r)) (hunk : arm u tail = none) :
+    tagLoop arm (gs.length + (fuel + 1)) currLen (flat gs ++ tail) acc seen = .ok (results gs acc, tagsOf gs seen, tail) := by
+  rw [tagLoop_groups arm gs (fuel + 1) currLen tail acc seen hok hnd hns hcl]
+  have hne : tail ≠ [] := by intro h; subst h; simp [tagDecDefault] at htag
+  have hl : lastLen gs tail currLen ≠ tail.length := by
+    cases gs with
+    | nil => simpa [lastLen] using hcl0 rfl
+    | cons g gs' => exact lastLen_ne _ _ _ (by simp) (fun x hx => (hok x hx).1)
+  simp only [tagLoop]
+  have : ¬ (tail.isEmpty = true ∨ lastLen gs tail currLen = tail.length) := by
+    intro h; rcases h with h | h
+    · cases tail <;> simp_all
+    · exact hl h
+  simp [this, htag, hunk]
+
+/-- **Duplicate.** A second group with a tag that was already consumed — wherever it stands — is rejected
+with `DuplicateTag` naming that tag, before its content is even looked at. -/
+theorem loop_duplicate (arm : Arm) (gs : List Group) (fuel currLen : Nat) (tail : Bytes) (t : Nat) (r : Bytes)
+    (idx : Nat) (res : Res (Val × Bytes)) (acc : List (Nat × Val)) (seen : List Nat)
+    (hok : ∀ g ∈ gs, GroupOK arm g) (hnd : (gs.map (·.t)).Nodup) (hns : ∀ g ∈ gs, g.t ∉ seen)
+    (hcl : gs ≠ [] → currLen ≠ (flat gs ++ tail).length) (hcl0 : gs = [] → currLen ≠ tail.length)
+    (htag : tagDecDefault tail = .ok (t, r)) (harm : arm t tail = some (idx, res)) (hdup : t ∈ tagsOf gs seen) :
+    tagLoop arm (gs.length + (fuel + 1)) currLen (flat gs ++ tail) acc seen = .error (.duplicateTag t) := by
+  rw [tagLoop_groups arm gs (fuel + 1) currLen tail acc seen hok hnd hns hcl]
+  have hne : tail ≠ [] := by intro h; subst h; simp [tagDecDefault] at htag
+  have hl : lastLen gs tail currLen ≠ tail.length := by
+    cases gs with
+    | nil => simpa [lastLen] using hcl0 rfl
+    | cons g gs' => exact lastLen_ne _ _ _ (by simp) (fun x hx => (hok x hx).1)
+  simp only [tagLoop]
+  have : ¬ (tail.isEmpty = true ∨ lastLen gs tail currLen = tail.length) := by
+    intro h; rcases h with h | h
+    · cases tail <;> simp_all
+    · exact hl h
+  have hc : (tagsOf gs seen).contains t = true := by simpa using hdup
+  simp only [this, if_false, htag, harm, hc, if_true]
+
+/-! ### order independence of what is assembled from the loop's result -/
+
+theorem lookupIdx_perm (i : Nat) : ∀ {l l' : List (Nat × Val)}, l.Perm l' → (l.map (·.1)).Nodup →
+    lookupIdx i l = lookupIdx i l' := by
+  intro l l' hp
+  induction hp with
+  | nil => intro _; rfl
+  | cons x _ ih =>
+    intro hnd
+    obtain ⟨j, v⟩ := x
+    simp only [List.map_cons, List.nodup_cons] at hnd
+    simp only [lookupIdx]
+    split
+    · rfl
+    · exact ih hnd.2
+  | swap x y l =>
+    intro hnd
+    obtain ⟨j, v⟩ := x
+    obtain ⟨k, w⟩ := y
+    simp only [List.map_cons, List.nodup_cons, List.mem_cons] at hnd
+    simp only [lookupIdx]
+    have hkj : k ≠ j := fun h => hnd.1 (Or.inl h)
+    by_cases h1 : i = k <;> by_cases h2 : i = j
+    · exfalso; apply hkj; rw [← h1, ← h2]
+    · subst h1; simp [hkj]
+    · subst h2; simp [Ne.symm hkj]
+    · simp [h1, h2]
+  | trans h1 _ ih1 ih2 =>
+    intro hnd
+    rw [ih1 hnd]
+    apply ih2
+    exact (List.Perm.nodup_iff (List.Perm.map _ h1)).mp hnd
+
+theorem assemble_congr : ∀ (fs : List Field) (pvals : List Val) (acc acc' : List (Nat × Val)) (i : Nat),
+    (∀ j, lookupIdx j acc = lookupIdx j acc') → assemble fs pvals acc i = assemble fs pvals acc' i := by
+  intro fs
+  induction fs with
+  | nil => intro _ _ _ _ _; rfl
+  | cons f fs ih =>
+    intro pvals acc acc' i h
+    simp only [assemble]
+    cases f.tag with
+    | none =>
+      simp only
+      cases pvals with
+      | nil => simp only; rw [ih [] acc acc' (i + 1) h]
+      | cons p ps => simp only; rw [ih ps acc acc' (i + 1) h]
+    | some t => simp only; rw [h i, ih pvals acc acc' (i + 1) h]
+
+theorem results_perm {gs gs' : List Group} (hp : gs.Perm gs') : (results gs []).Perm (results gs' []) := by
+  simp only [results, List.append_nil]
+  exact (List.reverse_perm _).trans ((List.Perm.map _ hp).trans (List.reverse_perm _).symm)
+
+theorem tags_contains_perm {gs gs' : List Group} (hp : gs.Perm gs') (t : Nat) :
+    (tagsOf gs []).contains t = (tagsOf gs' []).contains t := by
+  simp only [tagsOf, List.append_nil]
+  have : ((gs.map (·.t)).reverse).Perm ((gs'.map (·.t)).reverse) :=
+    (List.reverse_perm _).trans ((List.Perm.map _ hp).trans (List.reverse_perm _).symm)
+  rw [Bool.eq_iff_iff]
+  simp only [List.contains_iff_mem, List.elem_eq_mem, decide_eq_true_eq]
+  exact this.mem_iff
+
+/-! ### the generated `decode` on (positional prefix) ++ (groups) -/
+
+/-- value or missing-tags error computed from the loop's result. -/
+def finish (fs : List Field) (pvals : List Val) (acc : List (Nat × Val)) (seen : List Nat) (rest : Bytes) : Res (Val × Bytes) :=
+  let missing := sortDedup ((requiredTags fs).filter (fun t => ! seen.contains t))
+  if missing.isEmpty then .ok (.struct (assemble fs pvals acc 0), rest) else .error (.missing missing)
+
+/-- the whole struct decoder on a positional prefix followed by groups with pairwise distinct tags. -/
+theorem decode_groups (decPosF : Bytes → Res (List Val × Bytes)) (arm : Arm) (fs : List Field)
+    (pos : Bytes) (pvals : List Val) (hpos : ∀ x, decPosF (pos ++ x) = .ok (pvals, x))
+    (gs : List Group) (hok : ∀ g ∈ gs, GroupOK arm g) (hnd : (gs.map (·.t)).Nodup) :
+    decStructWith decPosF arm fs (pos ++ flat gs) = finish fs pvals (results gs []) (tagsOf gs []) [] := by
+  unfold decStructWith finish
+  rw [hpos]
+  simp only
+  have hfuel : (flat gs).length + 2 = gs.length + (((flat gs).length + 1 - gs.length) + 1) := by
+    have : gs.length ≤ (flat gs).length := by
+      clear hnd hpos
+      induction gs with
+      | nil => simp
+      | cons g gs ih =>
+        have hb := (hok g (by simp)).1
+        have := ih (fun x hx => hok x (by simp [hx]))
+        rw [flat_cons]
+        cases hbb : g.bytes with
+        | nil => exact absurd hbb hb
+        | cons x xs => simp; omega
+    omega
+  rw [hfuel, loop_all_groups arm gs _ _ [] [] hok hnd (by simp) (by intro _; omega)]
+
+/-- **Any order.** Two arrangements of the same groups decode to the same result: same value, no bytes
+left over — or the same error. -/
+theorem perm_invariant (decPosF : Bytes → Res (List Val × Bytes)) (arm : Arm) (fs : List Field)
+    (pos : Bytes) (pvals : List Val) (hpos : ∀ x, decPosF (pos ++ x) = .ok (pvals, x))
+    (gs gs' : List Group) (hp : gs.Perm gs') (hok : ∀ g ∈ gs, GroupOK arm g)
+    (hnd : (gs.map (·.t)).Nodup) (hni : (gs.map (·.idx)).Nodup) :
+    decStructWith decPosF arm fs (pos ++ flat gs) = decStructWith decPosF arm fs (pos ++ flat gs') := by
+  have hok' : ∀ g ∈ gs', GroupOK arm g := fun g hg => hok g (hp.mem_iff.mpr hg)
+  have hnd' : (gs'.map (·.t)).Nodup := (List.Perm.nodup_iff (List.Perm.map _ hp)).mp hnd
+  rw [decode_groups decPosF arm fs pos pvals hpos gs hok hnd, decode_groups decPosF arm fs pos pvals hpos gs' hok' hnd']
+  unfold finish
+  have hseen : (fun t => ! (tagsOf gs []).contains t) = (fun t => ! (tagsOf gs' []).contains t) := by
+    funext t; rw [tags_contains_perm hp t]
+  have hkeys : ((results gs []).map (·.1)).Nodup := by
+    simp only [results, List.append_nil, List.map_reverse, List.map_map]
+    exact (List.reverse_perm _).nodup_iff.mpr (by simpa [Function.comp_def] using hni)
+  have hass : assemble fs pvals (results gs []) 0 = assemble fs pvals (results gs' []) 0 :=
+    assemble_congr fs pvals _ _ 0 (fun j => lookupIdx_perm j (results_perm hp) hkeys)
+  rw [hseen, hass]
+
+/-! ### missing mandatory fields: all of them, sorted -/
+
+theorem mem_insertSorted (x y : Nat) (l : List Nat) : y ∈ insertSorted x l ↔ y = x ∨ y ∈ l := by
+  induction l with
+  | nil => simp [insertSorted]
+  | cons a l ih =>
+    simp only [insertSorted]
+    split
+    · simp
+    · split
+      · rename_i h; subst h; simp
+      · simp [ih]; constructor
+        · rintro (h | h | h) <;> simp [h]
+        · rintro (h | h | h) <;> simp [h]
+
+theorem mem_sortDedup (y : Nat) (l : List Nat) : y ∈ sortDedup l ↔ y ∈ l := by
+  unfold sortDedup
+  induction l with
+  | nil => simp
+  | cons a l ih => simp [mem_insertSorted, ih]
+
+def StrictSorted : List Nat → Prop
+  | [] => True
+  | [_] => True
+  | a :: b :: r => a < b ∧ StrictSorted (b :: r)
+
+theorem insertSorted_sorted (x : Nat) (l : List Nat) (h : StrictSorted l) : StrictSorted (insertSorted x l) := by
+  induction l with
+  | nil => simp [insertSorted, StrictSorted]
+  | cons a l ih =>
+    simp only [insertSorted]
+    split
+    · rename_i hlt; exact ⟨hlt, h⟩
+    · split
+      · exact h
+      · rename_i hnlt hne
+        have hax : a < x := by omega
+        cases l with
+        | nil => simp [insertSorted, StrictSorted, hax]
+        | cons b r =>
+          have hb := h.1
+          have ih' := ih h.2
+          simp only [insertSorted] at ih' ⊢
+          split
+          · exact ⟨hax, by rename_i hxb; exact ⟨hxb, h.2⟩⟩
+          · split
+            · exact ⟨hb, h.2⟩
+            · rename_i h1 h2
+              simp only [h1, h2, if_false] at ih'
+              exact ⟨hb, ih'⟩
+
+theorem sortDedup_sorted (l : List Nat) : StrictSorted (sortDedup l) := by
+  unfold sortDedup
+  induction l with
+  | nil => simp [StrictSorted]
+  | cons a l ih => exact insertSorted_sorted a _ ih
+
+/-- **Missing.** When mandatory tagged fields are absent the error names exactly the mandatory tags that did
+not occur — all of them — in strictly increasing order. -/
+theorem missing_reported (fs : List Field) (pvals : List Val) (acc : List (Nat × Val)) (seen : List Nat) (rest : Bytes)
+    (t : Nat) (ht : t ∈ requiredTags fs) (hs : t ∉ seen) :
+    ∃ m, finish fs pvals acc seen rest = .error (.missing m) ∧ StrictSorted m ∧
+      ∀ y, y ∈ m ↔ (y ∈ requiredTags fs ∧ y ∉ seen) := by
+  refine ⟨sortDedup ((requiredTags fs).filter (fun t => ! seen.contains t)), ?_, sortDedup_sorted _, ?_⟩
+  · unfold finish
+    simp only
+    have hm : t ∈ sortDedup ((requiredTags fs).filter (fun t => ! seen.contains t)) := by
+      rw [mem_sortDedup]; simp [ht, hs]
+    have : (sortDedup ((requiredTags fs).filter (fun t => ! seen.contains t))).isEmpty = false := by
+      cases hh : sortDedup ((requiredTags fs).filter (fun t => ! seen.contains t)) with
+      | nil => rw [hh] at hm; simp at hm
+      | cons a l => rfl
+    simp only [this, Bool.false_eq_true, if_false]
+  · intro y; rw [mem_sortDedup]; simp
+
+/-- … and when none is missing the packet is accepted. -/
+theorem none_missing_accepted (fs : List Field) (pvals : List Val) (acc : List (Nat × Val)) (seen : List Nat) (rest : Bytes)
+    (h : ∀ t ∈ requiredTags fs, t ∈ seen) :
+    finish fs pvals acc seen rest = .ok (.struct (assemble fs pvals acc 0), rest) := by
+  unfold finish
+  have : (requiredTags fs).filter (fun t => ! seen.contains t) = [] := by
+    apply List.filter_eq_nil_iff.mpr
+    intro t ht; simp [h t ht]
+  rw [this]; rfl
 
 end Zvt.C13
